@@ -738,3 +738,6 @@ class BigBufSuite(Qcow2Suite):
 
 
 SUITES = {"qcow2": Qcow2Suite(), "bigbuf": BigBufSuite()}
+
+from harness.readers import under_O  # noqa: E402
+SUITES["qcow2_pyO"] = under_O(SUITES["qcow2"])
